@@ -28,6 +28,9 @@ def make_cases(tier, seed, passes_multi, observe, classes=None, scale=1.0,
         # every fourth case repeats finalize(n) whenever schedule.n == n
         if (i + seed) % 4 == 1:
             case["refinalize"] = True
+        # every sixth case interleaves finalize calls that must be rejected
+        if (i + seed) % 6 == 2:
+            case["probe"] = True
         # online schedules: every fifth case finalises late (one or two
         # further next() calls after the forward reached its end)
         if cfg["cls"] in ("TwoLevel", "SingleDiskCopy", "SingleDiskMove",
@@ -51,6 +54,8 @@ def decorate(case, i, seed=0, frac=4):
     case.setdefault("protocol", "for" if (i + seed) % 3 == 1 else "next")
     if (i + seed) % 4 == 1:
         case.setdefault("refinalize", True)
+    if (i + seed) % 6 == 2:
+        case.setdefault("probe", True)
     if cfg["cls"] in ("TwoLevel", "SingleDiskCopy", "SingleDiskMove",
                       "SingleMemory", "None") and (i + seed) % 5 == 3:
         case.setdefault("late", 1 + (i // 5) % 2)
@@ -90,7 +95,8 @@ def run_stream_case(case, record=False):
                      rng=random.Random(case.get("rseed", 0)), record=record,
                      protocol=case.get("protocol", "next"),
                      late=case.get("late", 0),
-                     refinalize=case.get("refinalize", False))
+                     refinalize=case.get("refinalize", False),
+                     probe=case.get("probe", False))
     if sib is not None:
         try:
             sib.run()
